@@ -21,8 +21,10 @@ def _lib():
     return plot_utils
 
 
-def check_list(points, tol):
-    """points: tuple of (x, y).  Returns [(clause, msg)], number deleted."""
+def check_list(points, tol, slack=0):
+    """points: tuple of (x, y).  Returns [(clause, msg)], number deleted.
+    slack: relative allowance on tol^2 for inputs whose distances the implementation can only
+    compute with floating-point rounding (0 for the exact integer lattice)."""
     plot_utils = _lib()
     original = [list(p) for p in points]        # fresh vertex objects (identity matters)
     work = list(original)
@@ -60,7 +62,7 @@ def check_list(points, tol):
     if not idx or idx[0] != 0 or idx[-1] != len(original) - 1:
         out.append(("ends", f"{desc} left indices {idx}: first and last vertex must survive"))
         return out, deleted
-    tol2 = F(tol) * F(tol)
+    tol2 = F(tol) * F(tol) * (1 + F(slack))
     for left, right in zip(idx, idx[1:]):
         for k in range(left + 1, right):
             dist2 = sq_dist_point_segment(points[k], points[left], points[right])
@@ -186,7 +188,7 @@ def _scaled_chunk(cases):
     part = core.Part()
     for points, tol in cases:
         chord = ((points[-1][0] - points[0][0]) ** 2 + (points[-1][1] - points[0][1]) ** 2) ** 0.5
-        bad, deleted = check_list(points, tol)
+        bad, deleted = check_list(points, tol, slack=F(1, 10 ** 9))
         bad_pred, tie = check_predicate(points, tol, ref_slack=1e-9 + 4e-16 * chord)
         part.count("cases")
         part.count("predicate_cases")
@@ -197,11 +199,56 @@ def _scaled_chunk(cases):
             part.count("predicate_ties_skipped")
         for clause, msg in bad:
             part.violation(f"{clause}:{points}:{tol}", msg,
-                           {"kind": "list", "points": [list(p) for p in points], "tol": tol})
+                           {"kind": "list", "points": [list(p) for p in points], "tol": tol,
+                            "slack": 1e-9})
         for clause, msg in bad_pred:
             part.violation(f"{clause}:{points}:{tol}", msg,
                            {"kind": "pred", "points": [list(p) for p in points], "tol": tol,
                             "ref_slack": 1e-9 + 4e-16 * chord})
+    return part
+
+
+def dense_cases(ctx):
+    """Heavily oversampled smooth curves: one greedy run swallows dozens to hundreds of
+    vertices (far more than any list over the small lattice), the chord keeps rotating about
+    the run's start, and the vertices in the middle of the run are the ones that drift out."""
+    import math                             # pylint: disable=import-outside-toplevel
+    out = []
+    sizes = [400, 1000] + ([3000] if ctx.thorough else [])
+    for count in sizes:
+        circle = tuple((math.cos(2 * math.pi * k / count), math.sin(2 * math.pi * k / count))
+                       for k in range(count + 1))
+        for run in (20, 40, 70, 100, 200):
+            # 1.07 x the sagitta of a run of that length: well off the exact tie
+            out.append((circle, 1.07 * (1 - math.cos(math.pi * run / count))))
+    arc = tuple((10 * math.sin(0.001 * k), 10 - 10 * math.cos(0.001 * k)) for k in range(601))
+    out += [(arc, tol) for tol in (0.002, 0.01, 0.03)]
+    spiral = tuple(((1 + 0.002 * k) * math.cos(0.01 * k), (1 + 0.002 * k) * math.sin(0.01 * k))
+                   for k in range(900))
+    out += [(spiral, tol) for tol in (0.0005, 0.005, 0.05)]
+    wave = tuple((0.01 * k, math.sin(0.01 * k)) for k in range(800))
+    out += [(wave, tol) for tol in (0.001, 0.01, 0.1)]
+    line = tuple((0.25 * k, 0.125 * k) for k in range(300)) + ((80.0, 3.0),)
+    out += [(line, tol) for tol in (0.01, 0.5)]
+    return out
+
+
+def _dense_chunk(cases):
+    part = core.Part()
+    for points, tol in cases:
+        bad, deleted = check_list(points, tol, slack=F(1, 10 ** 9))
+        part.count("cases")
+        part.count("dense_cases")
+        if deleted:
+            part.count("nontrivial")
+        part.counters["max_deleted_in_one_list"] = max(
+            part.counters.get("max_deleted_in_one_list", 0), deleted)
+        for clause, msg in bad[:3]:
+            short = f"<{len(points)}-vertex curve starting {points[:2]}>"
+            part.violation(f"{clause}:dense:{core.digest((points, tol))}",
+                           msg.replace(str([tuple(p) for p in points]), short)[:600],
+                           {"kind": "list", "points": [list(p) for p in points], "tol": tol,
+                            "slack": 1e-9})
     return part
 
 
@@ -249,6 +296,8 @@ def run(ctx):
         jobs.append(("pred", (chunk, tols + [0.7071067811865476, 1.4142135623730951])))
     for chunk in core.split(scaled_cases(ctx), 16):
         jobs.append(("scaled", chunk))
+    for chunk in core.split(dense_cases(ctx), 16):
+        jobs.append(("dense", chunk))
     part = core.fan_out(ctx, _dispatch, jobs)
     cnt = part.counters
     total = cnt.get("cases", 0) + cnt.get("predicate_cases", 0)
@@ -269,6 +318,8 @@ def run(ctx):
         "multi_vertex_runs": cnt.get("multi_vertex_runs", 0),
         "long_run_cases": cnt.get("long_run_cases", 0),
         "scaled_cases": cnt.get("scaled_cases", 0),
+        "dense_cases": cnt.get("dense_cases", 0),
+        "max_deleted_in_one_list": cnt.get("max_deleted_in_one_list", 0),
         "predicate_cases": cnt.get("predicate_cases", 0),
         "predicate_ties_skipped": cnt.get("predicate_ties_skipped", 0),
         "exhaustive": True,
@@ -281,7 +332,7 @@ def run(ctx):
 
 def _dispatch(job):
     return {"lists": _lists_chunk, "collinear": _collinear_chunk, "pred": _pred_chunk,
-            "scaled": _scaled_chunk}[job[0]](job[1])
+            "scaled": _scaled_chunk, "dense": _dense_chunk}[job[0]](job[1])
 
 
 def replay(case):
@@ -289,4 +340,5 @@ def replay(case):
     if case["kind"] == "pred":
         return [m for _c, m in check_predicate(points, case["tol"],
                                                case.get("ref_slack", 1e-9))[0]]
-    return [m for _c, m in check_list(points, case["tol"])[0]]
+    slack = F(1, 10 ** 9) if case.get("slack") else 0
+    return [m for _c, m in check_list(points, case["tol"], slack)[0]]
